@@ -466,6 +466,120 @@ def two_tasks_probe(ctx: Ctx) -> None:
                 flush(app)
 
 
+def purge_vs_submission_probe(ctx: Ctx) -> None:
+    """the housekeeping of a runner purges a finished invocation (its index entries go) while a client submits a NEW invocation with
+    the same argument values (its index entries come): the purge thread is paused after each source line of the in-memory
+    orchestrator while the submission runs to completion, and the other way round.  Afterwards the new invocation is indexed: once it
+    is claimed, a third one with its key is blocked."""
+    from pynenc.conf.config_task import ConcurrencyControlType as C
+    from pynenc.orchestrator.mem_orchestrator import MemOrchestrator
+
+    from harness.sched_line import LineSched
+    from harness.sched_sql import PrefixChooser
+
+    sched = LineSched(line_targets=[MemOrchestrator], lock_modules=["pynenc.orchestrator.mem_orchestrator"], max_steps=20000).install()
+    n = 0
+    try:
+        def run_one(chooser):
+            app = make_app("mem", ctx.tmp, app_id=f"c06purge{ctx.rng.randrange(10**7)}", auto_final_invocation_purge_hours=0.0)
+            t = app.task(T.cc_body, running_concurrency=C.KEYS, key_arguments=("k",))
+            o = app.orchestrator
+            inv1 = t("a", "d", "e")
+            list(o.get_invocations_to_run(1, rctx("rA")))
+            o.set_invocation_status(inv1.invocation_id, trs_status("running"), rctx("rA"))
+            o.set_invocation_status(inv1.invocation_id, trs_status("success"), rctx("rA"))
+            made: dict = {}
+            run = sched.run([lambda: o.auto_purge(), lambda: made.setdefault("inv2", t("a", "x", "e"))], chooser)
+            inv2 = made.get("inv2")
+            got = [g.invocation_id for g in o.get_invocations_to_run(1, rctx("rB"))]
+            inv3 = t("a", "y", "e")
+            got3 = [g.invocation_id for g in o.get_invocations_to_run(1, rctx("rC"))]
+            st = {k: (o.get_invocation_status(v.invocation_id).value if v is not None else None) for k, v in (("inv2", inv2), ("inv3", inv3))}
+            run.meta = (st, got, got3)  # type: ignore[attr-defined]
+            return run
+
+        for first in (0, 1):
+            steps = len(run_one(PrefixChooser([first] * 20000)).choices)
+            stride = 1 if steps <= 120 or not ctx.quick else steps // 120 + 1
+            for k in range(0, steps + 1, stride):
+                run = run_one(PrefixChooser([first] * k + [1 - first] * 20000))
+                n += 1
+                ctx.count()
+                ctx.distinct(("purge-vs-submission", first, k))
+                st, got, got3 = run.meta  # type: ignore[attr-defined]
+                if run.aborted or any(e is not None for e in run.errors) or (st["inv2"] == "pending" and st["inv3"] in ("pending", "running")):
+                    ctx.report("index-entry-lost-to-concurrent-purge[mem]",
+                               f"[mem] auto_purge of a finished invocation with key a and the submission of a new one with the same key at the same time (thread {first} paused after "
+                               f"{k} source lines): afterwards the new invocation is {st['inv2']} and a THIRD one with the key is {st['inv3']} (errors {run.errors})",
+                               {"backend": "mem", "scenario": "purge-vs-submission", "paused_thread": first, "after_steps": k})
+                    return
+    finally:
+        sched.uninstall()
+        ctx.notes["purge_vs_submission_schedules"] = n
+
+
+def lookup_fault_probe(ctx: Ctx) -> None:
+    """the database refuses the LOOKUP that concurrency control relies on ("database is locked") while status writes still go through:
+    "could not look" is not "nobody holds the key".  Whatever the poll and the worker start do then - raise, skip, park - a second
+    invocation of the key does not become PENDING / RUNNING."""
+    import sqlite3
+
+    from pynenc.conf.config_task import ConcurrencyControlType as C
+    from pynenc.util.sqlite_utils import SQLiteConnection
+
+    for mode in (C.KEYS, C.TASK):
+        app = make_app("sqlite", ctx.tmp, app_id=f"c06lookup{mode.value}{ctx.rng.randrange(10**6)}")
+        opts: dict[str, Any] = {"running_concurrency": mode}
+        if mode == C.KEYS:
+            opts["key_arguments"] = ("k",)
+        t = app.task(T.cc_body, **opts)
+        o = app.orchestrator
+        inv1 = t("a", "d", "e")
+        list(o.get_invocations_to_run(1, rctx("rA")))
+        o.set_invocation_status(inv1.invocation_id, trs_status("running"), rctx("rA"))
+        inv2 = t("a", "x", "e")
+        real_execute = SQLiteConnection.execute
+        state = {"armed": True, "hits": 0}
+
+        def execute(conn, sql, parameters=(), /):  # type: ignore[no-untyped-def]
+            head = " ".join(str(sql).split())[:60].upper()
+            if state["armed"] and head.startswith("SELECT I.INVOCATION_ID FROM"):      # the existing-invocations lookup
+                state["hits"] += 1
+                raise sqlite3.OperationalError("database is locked")
+            return real_execute(conn, sql, parameters)
+
+        SQLiteConnection.execute = execute  # type: ignore[method-assign]
+        got, raised = [], None
+        try:
+            try:
+                got = list(o.get_invocations_to_run(2, rctx("rB")))
+            except BaseException as e:  # noqa: BLE001
+                raised = type(e).__name__
+            for g in got:
+                T.CC_GATES[g.invocation_id] = threading.Event()
+                th = threading.Thread(target=g.run, args=[rctx("rB")], daemon=True)
+                th.start()
+                t0 = _time.time()
+                while _time.time() - t0 < 3 and th.is_alive() and o.get_invocation_status(g.invocation_id).value != "running":
+                    _time.sleep(0.002)
+        finally:
+            state["armed"] = False
+            SQLiteConnection.execute = real_execute  # type: ignore[method-assign]
+        st2 = o.get_invocation_status(inv2.invocation_id).value
+        st1 = o.get_invocation_status(inv1.invocation_id).value
+        ctx.count()
+        ctx.distinct(("lookup-fault", mode.value, state["hits"] > 0))
+        for g in got:
+            gate = T.CC_GATES.get(g.invocation_id)
+            if gate:
+                gate.set()
+        if st1 == "running" and st2 in ("pending", "running"):
+            ctx.report("claimed-while-lookup-failed[sqlite]", f"[sqlite] an invocation holds the key RUNNING; the concurrency-control lookups of the next poll fail with 'database is locked' "
+                                                              f"({state['hits']} refused; the poll {'raised ' + raised if raised else 'returned ' + str(len(got)) + ' invocation(s)'}): the second "
+                                                              f"invocation of the key is {st2} (mode {mode.value})", {"backend": "sqlite", "scenario": "lookup-fault", "mode": mode.value})
+        flush(app)
+
+
 def second_process_probe(ctx: Ctx) -> None:
     """the holder of a key and the poller are DIFFERENT processes on one SQLite file (what a deployment looks like): a fresh interpreter
     with its own hash salt submits an invocation with the key this process holds RUNNING, polls and starts what it is handed.  Short
@@ -633,6 +747,8 @@ def run(ctx: Ctx) -> None:
         awaited_same_key_probe(ctx)
         second_process_probe(ctx)
         two_tasks_probe(ctx)
+        lookup_fault_probe(ctx)
+        purge_vs_submission_probe(ctx)
         two_pollers_probe(ctx)
     finally:
         clock.uninstall()
